@@ -86,42 +86,84 @@ class Allow:
         return None
 
     def _only_feeds_metrics(self, body, blk):
-        dest = blk.term["dest"]["l"]
+        held = {blk.term["dest"]["l"]}      # locals holding the clone (moved from temp to temp)
         uses = []
-        for b2 in body.blocks:
-            for st in b2.stmts:
-                if st["k"] == "assign":
-                    rv = st["rv"]
-                    for key in ("ref", "rawptr"):
-                        if key in rv and rv[key]["l"] == dest:
-                            uses.append(("ref", st["place"]["l"]))
-                    if "use" in rv:
-                        pl = rv["use"].get("move") or rv["use"].get("copy")
-                        if pl and pl["l"] == dest:
-                            uses.append(("use", st["place"]["l"]))
-            t = b2.term
-            if t["k"] == "call":
-                for a in t["args"]:
-                    pl = a.get("move") or a.get("copy")
-                    if pl and pl["l"] == dest and not pl["p"]:
-                        uses.append(("arg", callee(t)))
-        # every reference to it goes to a metrics accessor
-        refs = [u[1] for u in uses if u[0] == "ref"]
-        if any(u[0] in ("use", "arg") for u in uses):
-            return False
-        ok = True
-        for r in refs:
-            fed = []
+        grew = True
+        while grew:
+            grew = False
+            uses = []
             for b2 in body.blocks:
+                for st in b2.stmts:
+                    if st["k"] == "assign":
+                        rv = st["rv"]
+                        for key in ("ref", "rawptr"):
+                            if key in rv and rv[key]["l"] in held:
+                                uses.append(("ref", st["place"]["l"]))
+                        if "use" in rv:
+                            pl = rv["use"].get("move") or rv["use"].get("copy")
+                            if pl and pl["l"] in held:
+                                if not pl["p"] and not st["place"]["p"]:
+                                    if st["place"]["l"] not in held:
+                                        held.add(st["place"]["l"])
+                                        grew = True
+                                else:
+                                    uses.append(("use", st["place"]["l"]))
                 t = b2.term
                 if t["k"] == "call":
                     for a in t["args"]:
                         pl = a.get("move") or a.get("copy")
-                        if pl and pl["l"] == r:
-                            fed.append((fn_of(b2).get("def")))
-            if not fed or any(x not in anchors.metrics_accessors(self.f) for x in fed):
-                ok = False
-        return ok and bool(refs)
+                        if pl and pl["l"] in held and not pl["p"]:
+                            uses.append(("arg", callee(t)))
+        # every reference to it goes to a metrics accessor
+        refs = [u[1] for u in uses if u[0] == "ref"]
+        if any(u[0] in ("use", "arg") for u in uses):
+            return False
+        # the references themselves may be reborrowed (`&*r`) or moved between temporaries: same reference
+        alias = set(refs)
+        grew = True
+        while grew:
+            grew = False
+            for b2 in body.blocks:
+                for st in b2.stmts:
+                    if st["k"] != "assign" or st["place"]["p"]:
+                        continue
+                    rv = st["rv"]
+                    src = None
+                    if "ref" in rv and rv["ref"]["p"] == ["*"]:
+                        src = rv["ref"]["l"]
+                    elif "use" in rv:
+                        pl = rv["use"].get("move") or rv["use"].get("copy")
+                        if pl and not pl["p"]:
+                            src = pl["l"]
+                    if src in alias and st["place"]["l"] not in alias:
+                        alias.add(st["place"]["l"])
+                        grew = True
+        def places(x):
+            if isinstance(x, dict):
+                if "l" in x and "p" in x and isinstance(x["p"], list):
+                    yield x
+                for v in x.values():
+                    yield from places(v)
+            elif isinstance(x, list):
+                for v in x:
+                    yield from places(v)
+        for b2 in body.blocks:      # any other read through one of the references (a field, a deref copy) is a use we do not follow
+            for st in b2.stmts:
+                if st["k"] == "assign":
+                    for pl in places(st["rv"]):
+                        if pl["l"] in alias and pl["p"] not in ([], ["*"]):
+                            return False
+                    if st["place"]["p"] and any(pl["l"] in alias for pl in places(st["rv"])):
+                        return False
+        fed = []
+        for b2 in body.blocks:
+            t = b2.term
+            if t["k"] == "call":
+                for a in t["args"]:
+                    pl = a.get("move") or a.get("copy")
+                    if pl and pl["l"] in alias:
+                        fed.append(fn_of(b2).get("def"))
+        return bool(refs) and bool(fed) and all(x in anchors.metrics_accessors(self.f) for x in fed)
 
 
 def events_of(f, body, allow):
